@@ -415,7 +415,15 @@ func (wsEngine) Gen(t *rapid.T, tier string) any {
 	for i, n := 0, rapid.IntRange(0, 3).Draw(t, "njumps"); i < n; i++ {
 		c.Jumps = append(c.Jumps, rapid.SampledFrom([]int{100, 1000, 4999, 5001, 61000}).Draw(t, "jump"))
 	}
-	if c.Opt.Rate >= 100 && rapid.IntRange(0, 3).Draw(t, "stallburst") == 0 {
+	if rapid.IntRange(0, 5).Draw(t, "reset") == 0 {
+		// connection reset at an arbitrary byte of the client's stream (the
+		// handshake request is not part of it)
+		total := 0
+		for i := range c.Frames {
+			total += len(c.Frames[i].Payload) + 8
+		}
+		c.Conn.ResetAtC2S = int64(rapid.IntRange(1, total).Draw(t, "reset.at"))
+	} else if c.Opt.Rate >= 100 && rapid.IntRange(0, 3).Draw(t, "stallburst") == 0 {
 		c.StallBurst = rapid.SampledFrom([]int{3, 70, 150}).Draw(t, "burst")
 	}
 	c.Sched = GenSchedule(t, 4000)
@@ -649,6 +657,40 @@ func (wsEngine) Exec(t *testing.T, cc any) *simrt.Result {
 		_ = readerDone
 		if c.Conn.Chunk < 64 {
 			st.Fault("conn-chunk-small")
+		}
+		if link != nil && link.WasReset.Load() {
+			// ---- connection reset mid-stream: whatever reached the handler must be a
+			// prefix of the deliverable frames (nothing partial, garbled or
+			// reordered), and the session must end
+			st.Fault("conn-reset")
+			var want []*wsFrame
+			for i := range c.Frames {
+				if c.Frames[i].Deliverable {
+					want = append(want, &c.Frames[i])
+				}
+			}
+			for i, m := range h.recvd {
+				if i >= len(want) || !wsSameMsg(m, want[i].Msg) {
+					sim.Violate("C12", "garbage-after-reset", nil, "after a connection reset at byte %d the handler had received a %s message (#%d) that is not the next valid frame the client sent", c.Conn.ResetAtC2S, m.ClientMsgLabel(), i)
+					break
+				}
+			}
+			for i := 0; i < 40 && !link.Served.Load(); i++ {
+				sim.Drive()
+				sim.Advance(500 * time.Millisecond)
+			}
+			if !link.Served.Load() {
+				sim.Violate("C13", "ws-session-does-not-end", map[string]string{"how": "reset"}, "20s of simulated time after the connection was reset, Relay.ServeHTTP has not returned")
+			}
+			if conn != nil {
+				sim.Go("wsc.closenow", func() { conn.CloseNow() })
+			}
+			cancel()
+			srvCancel()
+			sim.Drive()
+			st.NonTrivial = len(c.Frames) >= 2
+			st.Completed = true
+			return
 		}
 		// ---- oracle
 		// (1) what the handler received == deliverable frames, in order, each once
